@@ -705,3 +705,6 @@ func (s *session) garbage() {
 }
 
 var _ = io.EOF
+
+// Tip is the tip of the chain this peer serves right now.
+func (p *Peer) Tip() *Blk { return p.tip() }
